@@ -63,6 +63,7 @@ for group in ('step', 'initial'):
 OPS += [['cutoff', None], ['cutoff', 2], ['suppress', False], ['suppress', True]]
 OPS += [['mutate', 'append'], ['mutate', 'pop'], ['mutate', 'clear'], ['mutate', 'assign']]
 OPS += [['csv', 'solver', '%.5g'], ['csv', 'solver', '%.3f'], ['csv', 'main', '%.5g'], ['csv', 'step', '%e'], ['csv', 'initial', '%.5g']]
+OPS += [['csv', 'solver', None], ['csv', 'main', None]]          # default format argument
 OPS += [['serieslist', 'main'], ['mutate-names', 'clear'], ['mutate-names', 'reverse']]
 
 
@@ -116,13 +117,14 @@ def run_history(hist):
                     elif op[1] == 'assign' and len(last):
                         last[0] = -1.0
             elif op[0] == 'csv':
+                fmt = op[2] if op[2] is not None else '%.5g'
                 if op[1] == 'solver':
-                    txt = m.EquationSolver.GenerateCSVtext(op[2])
-                    key = ('main', op[2])
+                    txt = m.EquationSolver.GenerateCSVtext(op[2]) if op[2] is not None else m.EquationSolver.GenerateCSVtext()
+                    key = ('main', fmt)
                 else:
-                    txt = holders[op[1]]().GenerateCSVtext(op[2])
-                    key = (op[1], op[2])
-                exp = render(ref[key[0]], op[2])
+                    txt = holders[op[1]]().GenerateCSVtext(op[2]) if op[2] is not None else holders[op[1]]().GenerateCSVtext()
+                    key = (op[1], fmt)
+                exp = render(ref[key[0]], fmt)
                 if txt != exp:
                     return core.violation('rendering-not-faithful:' + op[1], '%s differs from the rendering of the snapshot: %r vs %r' % (
                         what, txt[:80], exp[:80]), case)
